@@ -44,53 +44,62 @@ class UserUpdateSegmentation(ActionGroup):
         node_to_select = None
         if self.tracks.segmentation is None:
             raise ValueError("Cannot update non-existing segmentation.")
-        for pixels, old_value in updated_pixels:
-            ndim = len(pixels)
-            if old_value == 0:
-                continue
-            time = pixels[0][0]
-            # check if all pixels of old_value are removed
-            # TODO: this assumes the segmentation is already updated, but then we can't
-            # recover the pixels, so we have to pass them here for undo purposes
-            if np.sum(self.tracks.segmentation[time] == old_value) == 0:
-                self.actions.append(
-                    UserDeleteNode(tracks, old_value, pixels=pixels, _top_level=False)
-                )
-            else:
-                self.actions.append(UpdateNodeSeg(tracks, old_value, pixels, added=False))
-        if new_value != 0 and updated_pixels:
-            all_pixels = tuple(
-                np.concatenate([pixels[dim] for pixels, _ in updated_pixels])
-                for dim in range(ndim)
-            )
-            assert len(np.unique(all_pixels[0])) == 1, (
-                "Can only update one time point at a time"
-            )
-            time = all_pixels[0][0]
-            if self.tracks.graph.has_node(new_value):
-                self.actions.append(
-                    UpdateNodeSeg(tracks, new_value, all_pixels, added=True)
-                )
-            else:
-                time_key = tracks.features.time_key
-                tracklet_key = tracks.features.tracklet_key
-                if tracklet_key is None:
-                    raise ValueError("Track ID key is not set in tracks features")
-                attrs: dict[str, int] = {
-                    time_key: time,
-                    tracklet_key: current_track_id,
-                }
-                self.actions.append(
-                    UserAddNode(
-                        tracks,
-                        new_value,
-                        attributes=attrs,
-                        pixels=all_pixels,
-                        force=force,
-                        _top_level=False,
+        try:
+            for pixels, old_value in updated_pixels:
+                ndim = len(pixels)
+                if old_value == 0:
+                    continue
+                time = pixels[0][0]
+                # check if all pixels of old_value are removed
+                # TODO: this assumes the segmentation is already updated, but then we
+                # can't recover the pixels, so we have to pass them here for undo purposes
+                if np.sum(self.tracks.segmentation[time] == old_value) == 0:
+                    self.actions.append(
+                        UserDeleteNode(tracks, old_value, pixels=pixels, _top_level=False)
                     )
+                else:
+                    self.actions.append(
+                        UpdateNodeSeg(tracks, old_value, pixels, added=False)
+                    )
+            if new_value != 0 and updated_pixels:
+                all_pixels = tuple(
+                    np.concatenate([pixels[dim] for pixels, _ in updated_pixels])
+                    for dim in range(ndim)
                 )
-                node_to_select = new_value
+                assert len(np.unique(all_pixels[0])) == 1, (
+                    "Can only update one time point at a time"
+                )
+                time = all_pixels[0][0]
+                if self.tracks.graph.has_node(new_value):
+                    self.actions.append(
+                        UpdateNodeSeg(tracks, new_value, all_pixels, added=True)
+                    )
+                else:
+                    time_key = tracks.features.time_key
+                    tracklet_key = tracks.features.tracklet_key
+                    if tracklet_key is None:
+                        raise ValueError("Track ID key is not set in tracks features")
+                    attrs: dict[str, int] = {
+                        time_key: time,
+                        tracklet_key: current_track_id,
+                    }
+                    self.actions.append(
+                        UserAddNode(
+                            tracks,
+                            new_value,
+                            attributes=attrs,
+                            pixels=all_pixels,
+                            force=force,
+                            _top_level=False,
+                        )
+                    )
+                    node_to_select = new_value
+        except Exception:
+            # a refused update leaves the tracks unchanged: revert the sub-actions
+            # that were already applied before re-raising
+            for action in reversed(self.actions):
+                action.inverse()
+            raise
 
         self.tracks.action_history.add_new_action(self)
         self.tracks.refresh.emit(node_to_select)
